@@ -11,6 +11,7 @@ Representation (hashable, comparison-safe tuples):
 The empty list is ('a', '[]').
 """
 import re
+import unicodedata
 import struct
 
 NIL = ('a', '[]')
@@ -299,6 +300,17 @@ def _args(toks, i, name):
 _PLAIN = re.compile(r'\A[a-z][A-Za-z0-9_]*\Z')
 
 
+def _needs_escape(ch):
+    """control, unassigned, private-use, format and line/paragraph separator characters are written as \\xHH\\ escapes:
+    the reader is not required to accept them raw inside quoted items"""
+    o = ord(ch)
+    if o < 0x20 or 0x7f <= o < 0xa0:
+        return True
+    if o < 0x2000:
+        return False
+    return unicodedata.category(ch) in ('Cc', 'Cn', 'Co', 'Cs', 'Cf', 'Zl', 'Zp')
+
+
 def quote_atom(s):
     if _PLAIN.match(s) or s in ('[]', '{}', '!', ';'):
         return s
@@ -313,7 +325,7 @@ def quote_atom(s):
             out.append('\\n')
         elif ch == '\t':
             out.append('\\t')
-        elif o < 0x20 or o == 0x7f:
+        elif _needs_escape(ch):
             out.append('\\x%x\\' % o)
         else:
             out.append(ch)
@@ -483,7 +495,7 @@ def dq_string(s):
             out.append('\\n')
         elif ch == '\t':
             out.append('\\t')
-        elif o < 0x20 or o == 0x7f:
+        elif _needs_escape(ch):
             out.append('\\x%x\\' % o)
         else:
             out.append(ch)
